@@ -345,6 +345,29 @@ def _run_errors(desc):
         sc = km.spelling(alg.bin2canon[k12])[0]
         coeff_or_raise('two-spellings-of-one-blade', lambda: alg.multivector(**{sp1: 1, sp2: 2}), {k12: (s1 * 1 + s2 * 2) * sc},
                        f'keywords {sp1}=1 and {sp2}=2 (two spellings of one blade)')
+    if d >= 2 and not alg.graded:
+        import sympy as _sp
+        n1 = alg.bin2canon[1]
+        must_raise('duplicate-keys', lambda: alg.multivector(keys=(1, 1), values=[2, 3]))
+        must_raise('duplicate-keys-names', lambda: alg.multivector(keys=(n1, n1), values=[2, 3]))
+        must_raise('duplicate-keys-mixed', lambda: alg.multivector(keys=(n1, 1), values=[2, 3]))
+        coeff_or_raise('keyword-odd-spelling-string-value', lambda: alg.multivector(**{sp2: 'x'}), {k12: s2 * sc * _sp.Symbol('x')},
+                       f'keyword {sp2} (an odd spelling) with the string value "x"')
+        coeff_or_raise('keyword-not-a-blade-name', lambda: alg.multivector(**{'x' + w: 5}), {'__never__': 1}, f'the keyword x{w} is no blade name')
+        coeff_or_raise('keyword-not-a-blade-name', lambda: alg.multivector(**{'_' + w[:1]: 5}), {'__never__': 1}, f'the keyword _{w[:1]} is no blade name')
+        # (keys=() next to a full list of values is the documented default 'no keys given', not a length mismatch)
+        coeff_or_raise('keys-from-a-generator', lambda: alg.multivector(keys=(k for k in (3, 1)), values=[12, 7]), {3: 12, 1: 7}, 'integer keys given as a generator')
+        coeff_or_raise('keys-from-a-map-object', lambda: alg.multivector(keys=map(int, ('3', '1')), values=[12, 7]), {3: 12, 1: 7}, 'integer keys given as a map object')
+        xx = alg.multivector(keys=(k12, 1), values=[4, 9])
+        for tag, item, want_in in (('canonical', alg.bin2canon[k12], True), ('odd-spelling', sp2 if sp2 != alg.bin2canon[k12] else sp1, True), ('absent', alg.bin2canon[2], False),
+                                   ('absent-odd-spelling', 'e' + alg.bin2canon[2 ** d - 1][1:][::-1] if d >= 3 else alg.bin2canon[2], False), ('int-key', k12, True)):
+            try:
+                got_in = item in xx
+            except Exception as e:  # noqa
+                claims.append(Fail(f'contains:{tag}', f'{item!r} in x raises {type(e).__name__}: {e}', fkey=f'errors|containment|{tag}'))
+                continue
+            if bool(got_in) != want_in:
+                claims.append(Fail(f'contains:{tag}', f'{item!r} in x is {got_in}, expected {want_in}', fkey=f'errors|containment|{tag}'))
     if alg.graded and d >= 2:
         # complete grades given in another order than the canonical one: refused, or every value on the blade it was given for
         g1 = [k for k in alg.bin2canon if bin(k).count('1') == 1]
